@@ -439,21 +439,24 @@ impl ForwardedStreamSink {
         let to_send =
             std::cmp::min(data.len() as u64, state.remaining_chunk_size.unwrap()) as usize;
         let unsent = state.sink.write(data.slice(..to_send))?;
+        // only the part taken by the underlying sink is gone from the chunk
+        let accepted = to_send - unsent.len();
 
         let remaining = state
             .remaining_chunk_size
             .take()
             .unwrap()
-            .saturating_sub(to_send as u64);
+            .saturating_sub(accepted as u64);
         log_id!(
             trace,
             self.id,
             "Encoded chunk: {} bytes (remaining {} bytes)",
-            to_send,
+            accepted,
             remaining
         );
         if remaining > 0 {
             state.remaining_chunk_size = Some(remaining);
+            self.state = SinkState::TransferringBodyChunked(state);
         } else {
             self.state = SinkState::WaitingChunkSuffix(SinkWaitingChunkSuffix {
                 buffer: BytesMut::with_capacity(ENCODED_CHUNK_SUFFIX.len()),
@@ -461,9 +464,11 @@ impl ForwardedStreamSink {
                 sink: state.sink,
             });
         }
-        self.fake_unsent = !data.is_empty();
+        let tail = data.split_off(accepted);
+        // a tail is really unsent only if the underlying sink refused a part of the chunk
+        self.fake_unsent = unsent.is_empty() && !tail.is_empty();
 
-        Ok(data.split_off(to_send - unsent.len()))
+        Ok(tail)
     }
 
     fn on_encoded_chunk_suffix(&mut self, mut data: Bytes) -> io::Result<Bytes> {
